@@ -5,182 +5,13 @@ name of an operand (for the python_version / python_full_version pairing: one of
 through `MultiMarker.of`, `MarkerUnion.of`, `intersect`, `union`, `cnf`, `dnf` by C07's soundness induction,
 instantiated with the leaf invariant "satisfies `G` and is named in `N`".
 -/
-import PoetryVerif.Proofs.MarkerProj
-import PoetryVerif.Proofs.MarkerShape
-import PoetryVerif.Proofs.MarkerAlgSoundOps
-import PoetryVerif.Proofs.PyConvMarker
+import PoetryVerif.Proofs.MarkerProjReparse
 
 set_option linter.unusedSimpArgs false
 set_option linter.unusedVariables false
 
 namespace Poetry.Marker
 open Poetry
-
-/-! ### names of rebuilt leaves -/
-
-theorem leafPrepare_name' (name cstr : String) (sw : Bool) (p : LeafPrep) (h : leafPrepare name cstr sw = .ok p) :
-    p.name = aliasName name := by
-  unfold leafPrepare at h
-  simp only at h
-  split at h
-  · cases h
-  · repeat' split at h
-    all_goals (first | cases h; rfl | skip)
-
-theorem mkSingle_name' (name cstr : String) (sw : Bool) (s : Single) (h : mkSingle name cstr sw = .ok s) :
-    s.name = aliasName name := by
-  simp only [mkSingle, bind, Except.bind] at h
-  split at h
-  · cases h
-  · rename_i p hp
-    split at h
-    · cases h
-    · simp [pure, Except.pure] at h
-      rw [← h]; exact leafPrepare_name' name cstr sw p hp
-
-theorem mkSingleOfC_name (name : String) (c : LeafC) (s : Single) (h : mkSingleOfC name c = .ok s) :
-    s.name = aliasName name := by
-  simp only [mkSingleOfC, bind, Except.bind] at h
-  split at h
-  · cases h
-  · exact mkSingle_name' _ _ _ _ h
-
-/-- `parse_marker("python_version == \"…\"")`, whatever the value text: the item read is on `python_version` -/
-theorem parseItemMarker_pv_name (t : String) (r : M)
-    (h : parseItemMarker ("python_version == \"" ++ t ++ "\"") = .ok r) :
-    ∃ s, r = .leaf (.single s) ∧ s.name = "python_version" := by
-  unfold parseItemMarker at h
-  split at h
-  · cases h
-  · rename_i n op v sw hp
-    obtain ⟨s, hs, h2⟩ := bind_ok.1 h
-    rw [pure_ok] at h2; subst h2
-    refine ⟨s, rfl, ?_⟩
-    rw [mkSingle_name' _ _ _ _ hs]
-    -- the name the recogniser reads
-    have hn : n = "python_version" := by
-      unfold parseText at hp
-      simp only [String.toList_append] at hp
-      generalize hfuel : 2 * ("python_version == \"".toList ++ t.toList ++ "\"".toList).length + 2 = fuel at hp
-      obtain ⟨f, rfl⟩ : ∃ f, fuel = f + 2 := ⟨fuel - 2, by omega⟩
-      rw [parseSyn] at hp
-      rw [parseAtom] at hp
-      simp [skipWs, parseItem, markerValue, names_eq, matchWord, stripPrefix?] at hp
-      repeat' (split at hp)
-      all_goals (first | (cases hp; done) | skip)
-      all_goals simp_all
-      rename_i heq _
-      repeat' (split at heq)
-      all_goals (first | (cases heq; done) | skip)
-      all_goals (simp at heq)
-      rename_i heq2 _ _
-      obtain ⟨rfl, rfl⟩ := heq
-      repeat' (split at heq2)
-      all_goals (first | (cases heq2; done) | skip)
-      all_goals (simp at heq2)
-      all_goals (exact heq2.1.1.symm)
-    rw [hn]; decide
-  · cases h
-
-
-/-! ### `_merge_single_markers` returns leaves named like an operand -/
-
-/-- the leaf's variable is one of `N` and is spelt canonically (aliases resolved, as `SingleMarker.__init__`
-stores it) -/
-def Named (N : List String) (l : Leaf) : Prop := l.name ∈ N ∧ aliasName l.name = l.name
-
-theorem cand_named (N : List String) (m1 : Leaf) (h1 : Named N m1) (l : Leaf) (t : String)
-    (hpi : parseItemMarker ("python_version == \"" ++ t ++ "\"") = .ok (.leaf l))
-    (hne : ¬ ((m1.name != "python_version") = true)) : M.Good (Named N) (.leaf l) := by
-  obtain ⟨s, hs, hsn⟩ := parseItemMarker_pv_name _ _ hpi
-  cases hs
-  have hm1 : m1.name = "python_version" := by simpa using hne
-  simp only [M.good_leaf, Named, Leaf.name, hsn]
-  exact ⟨hm1 ▸ h1.1, by decide⟩
-
-theorem mergeSingle_nonpy_named (N : List String) (depth : Nat) (m1 m2 : Leaf) (im : Bool) (r : M)
-    (hp : ((m1.name == "python_version" && m2.name == "python_full_version") ||
-                (m1.name == "python_full_version" && m2.name == "python_version")) = false)
-    (h1 : Named N m1) (h2 : Named N m2)
-    (h : mergeSingle depth m1 m2 im = .ok (some r)) : M.Good (Named N) r := by
-  have hs1 : ∀ rc s, mkSingleOfC m1.name rc = .ok s → Named N (.single s) := by
-    intro rc s hs
-    have hname : (Leaf.single s).name = m1.name := by
-      show s.name = _
-      rw [mkSingleOfC_name _ _ _ hs, h1.2]
-    exact ⟨by rw [hname]; exact h1.1, by rw [hname]; exact h1.2⟩
-  rw [mergeSingle.eq_def] at h
-  dsimp only at h
-  rw [hp] at h
-  rw [if_neg Bool.false_ne_true] at h
-  by_cases hn : (m1.name != m2.name) = true
-  · rw [if_pos hn] at h; cases h
-  rw [if_neg hn] at h
-  split at h
-  · cases h
-  · cases h
-  · rename_i c1 c2 _ _
-    cases im <;> simp only [Bool.false_eq_true, if_false, if_true] at h <;>
-    (obtain ⟨rc, _, h⟩ := bind_ok.1 h
-     by_cases e1 : rc.isEmpty = true
-     · rw [if_pos e1, pure_ok] at h; cases h; simp
-     rw [if_neg e1] at h
-     by_cases e2 : rc.isAny = true
-     · rw [if_pos e2, pure_ok] at h; cases h; simp
-     rw [if_neg e2] at h
-     by_cases e3 : rc.eqv m1.c = true
-     · rw [if_pos e3, pure_ok] at h; cases h; simpa using h1
-     rw [if_neg e3] at h
-     by_cases e4 : rc.eqv m2.c = true
-     · rw [if_pos e4, pure_ok] at h; cases h; simpa using h2
-     rw [if_neg e4] at h
-     obtain ⟨b, _, h⟩ := bind_ok.1 h
-     cases b
-     · rw [if_neg Bool.false_ne_true] at h
-       repeat' (first
-         | (split at h)
-         | (obtain ⟨_, hq, h⟩ := bind_ok.1 h)
-         | (rw [pure_ok] at h))
-       all_goals (first | (cases h; done) | (cases h; simp; done) | (cases h; cases hq; done) | skip)
-       all_goals (first
-         | (cases h; simpa [Named, Leaf.name] using h1; done)
-         | (cases h; simpa using hs1 _ _ hq; done)
-         | skip)
-       all_goals (
-         cases h
-         simp only [pure_ok] at hq
-         cases hq
-         exact cand_named N m1 h1 _ _ (by assumption) (by assumption))
-     · rw [if_pos rfl] at h
-       obtain ⟨s, hs, h⟩ := bind_ok.1 h
-       rw [pure_ok] at h; cases h; simpa using hs1 _ _ hs)
-
-
-/-! ### the python_version / python_full_version pairing -/
-
-def PyNamed (l : Leaf) : Prop := l.name = "python_version" ∨ l.name = "python_full_version"
-
-/-- the text `_merge_python_version_single_markers` re-parses: the merged `python_full_version` marker, renamed
-to `python_version` and/or re-padded -/
-def pyRewrite (ms : Single) : String :=
-  let str := leafText ms.name ms.op ms.value ms.swapped
-  let precision := countChar '.' str + 1
-  let lt_ge := ms.op == "<" || ms.op == ">="
-  if precision < 3 then
-    let target := if lt_ge then 2 else 3
-    let s1 := if lt_ge then strReplace str "python_full_version" "python_version" else str
-    dropRight s1 1 ++ String.join (List.replicate (target - precision) ".0") ++ "\""
-  else if precision == 3 && lt_ge && (dropRight str 1).endsWith ".0" then
-    let s1 := strReplace str "python_full_version" "python_version"
-    dropRight s1 3 ++ "\""
-  else str
-
-/-- the one fact about `_merge_python_version_single_markers` that is taken as a hypothesis: re-parsing the
-rewritten text of a `python_full_version` marker gives a marker on `python_version` or `python_full_version`
-(the rewriting is Python's `str.replace` on the marker text) -/
-def ReparseNames : Prop :=
-  ∀ (ms : Single) (r : M), ms.name = "python_full_version" → parseItemMarker (pyRewrite ms) = .ok r →
-    M.Good PyNamed r
 
 theorem pyNamed_named (N : List String) (h1 : "python_version" ∈ N) (h2 : "python_full_version" ∈ N) (r : M)
     (h : M.Good PyNamed r) : M.Good (Named N) r :=
@@ -189,7 +20,7 @@ theorem pyNamed_named (N : List String) (h1 : "python_version" ∈ N) (h2 : "pyt
     · exact ⟨h ▸ h1, by rw [h]; decide⟩
     · exact ⟨h ▸ h2, by rw [h]; decide⟩) r h
 
-theorem mergePythonVersion_named (HR : ReparseNames) (depth : Nat) (s1 s2 : Single) (im : Bool) (r : M)
+theorem mergePythonVersion_named (depth : Nat) (s1 s2 : Single) (im : Bool) (r : M)
     (hpair : (s1.name = "python_version" ∧ s2.name = "python_full_version") ∨
              (s1.name = "python_full_version" ∧ s2.name = "python_version"))
     (h : mergePythonVersion depth s1 s2 im = .ok (some r)) : M.Good PyNamed r := by
@@ -233,7 +64,7 @@ theorem mergePythonVersion_named (HR : ReparseNames) (depth : Nat) (s1 s2 : Sing
             have := hinner
             simp only [M.good_leaf, Named, Leaf.name, List.mem_singleton] at this
             exact this.1
-          exact HR ms _ hmsn hw
+          exact reparseNames_holds ms _ hmsn hw
         | amulti n c =>
           simp only [pure_ok] at h; cases h
           have := hinner
@@ -255,7 +86,7 @@ theorem mergePythonVersion_named (HR : ReparseNames) (depth : Nat) (s1 s2 : Sing
 
 
 /-- **`_merge_single_markers` mentions only the variables of its operands.** -/
-theorem mergeLeaves_named (HR : ReparseNames) (N : List String) (l1 l2 : Leaf) (im : Bool) (r : M)
+theorem mergeLeaves_named (N : List String) (l1 l2 : Leaf) (im : Bool) (r : M)
     (h1 : Named N l1) (h2 : Named N l2) (h : mergeLeaves l1 l2 im = .ok (some r)) : M.Good (Named N) r := by
   unfold mergeLeaves at h
   cases hp : ((l1.name == "python_version" && l2.name == "python_full_version") ||
@@ -271,7 +102,7 @@ theorem mergeLeaves_named (HR : ReparseNames) (N : List String) (l1 l2 : Leaf) (
       have hpair : (s1.name = "python_version" ∧ s2.name = "python_full_version") ∨
              (s1.name = "python_full_version" ∧ s2.name = "python_version") := by
         simpa [Leaf.name] using hp
-      have hpy := mergePythonVersion_named HR 1 s1 s2 im r hpair h
+      have hpy := mergePythonVersion_named 1 s1 s2 im r hpair h
       have hin : "python_version" ∈ N ∧ "python_full_version" ∈ N := by
         rcases hpair with ⟨a, b⟩ | ⟨a, b⟩
         · exact ⟨by simpa [Leaf.name, a] using h1.1, by simpa [Leaf.name, b] using h2.1⟩
@@ -311,12 +142,12 @@ theorem good_and {P Q : Leaf → Prop} (m : M) (h1 : M.Good P m) (h2 : M.Good Q 
 
 /-- C07's leaf specification, strengthened with the names: if it holds for `G`, it holds for "`G` and named in
 `N`" -/
-theorem leafSpec_named (HR : ReparseNames) (S : LeafSpec ev G) (N : List String) :
+theorem leafSpec_named (S : LeafSpec ev G) (N : List String) :
     LeafSpec ev (fun l => G l ∧ Named N l) where
   congr := fun a b ha hb h => S.congr a b ha.1 hb.1 h
   merge := fun l1 l2 im r h1 h2 h => by
     have := S.merge l1 l2 im r h1.1 h2.1 h
-    exact ⟨good_and r this.1 (mergeLeaves_named HR N l1 l2 im r h1.2 h2.2 h), this.2⟩
+    exact ⟨good_and r this.1 (mergeLeaves_named N l1 l2 im r h1.2 h2.2 h), this.2⟩
 
 mutual
 theorem good_vars (N : List String) (m : M) (h : M.Good (fun l => G l ∧ Named N l) m) : ∀ n ∈ M.vars m, n ∈ N := by
@@ -343,11 +174,11 @@ end
 def Canon (l : Leaf) : Prop := aliasName l.name = l.name
 
 /-- the leaf specification may always be taken to include canonical spelling -/
-theorem leafSpec_canon (HR : ReparseNames) (S : LeafSpec ev G) : LeafSpec ev (fun l => G l ∧ Canon l) where
+theorem leafSpec_canon (S : LeafSpec ev G) : LeafSpec ev (fun l => G l ∧ Canon l) where
   congr := fun a b ha hb h => S.congr a b ha.1 hb.1 h
   merge := fun l1 l2 im r h1 h2 h => by
     have := S.merge l1 l2 im r h1.1 h2.1 h
-    have hn := mergeLeaves_named HR [l1.name, l2.name] l1 l2 im r ⟨by simp, h1.2⟩ ⟨by simp, h2.2⟩ h
+    have hn := mergeLeaves_named [l1.name, l2.name] l1 l2 im r ⟨by simp, h1.2⟩ ⟨by simp, h2.2⟩ h
     exact ⟨good_and r this.1 (M.good_mono (fun l hl => hl.2) r hn), this.2⟩
 
 mutual
@@ -377,7 +208,7 @@ end
 /-! ### `only` -/
 
 mutual
-theorem only_named (HR : ReparseNames) (S : LeafSpec ev G) (hc : ∀ l, G l → Canon l) (names : List String)
+theorem only_named (S : LeafSpec ev G) (hc : ∀ l, G l → Canon l) (names : List String)
     (m r : M) (hg : M.Good G m) (h : M.only names m = .ok r) :
     M.Good (fun l => G l ∧ Named names l) r := by
   cases m with
@@ -395,16 +226,16 @@ theorem only_named (HR : ReparseNames) (S : LeafSpec ev G) (hc : ∀ l, G l → 
     split at h
     · cases h
     · rename_i xs hx
-      have hl := only_namedList HR S hc names ms xs (by simpa [M.Good] using hg) hx
-      exact (multiOf_sound (leafSpec_named HR S names) hl h).1
+      have hl := only_namedList S hc names ms xs (by simpa [M.Good] using hg) hx
+      exact (multiOf_sound (leafSpec_named S names) hl h).1
   | union ms =>
     simp only [M.only, bind, Except.bind] at h
     split at h
     · cases h
     · rename_i xs hx
-      have hl := only_namedList HR S hc names ms xs (by simpa [M.Good] using hg) hx
-      exact (unionOf_sound (leafSpec_named HR S names) hl h).1
-theorem only_namedList (HR : ReparseNames) (S : LeafSpec ev G) (hc : ∀ l, G l → Canon l) (names : List String)
+      have hl := only_namedList S hc names ms xs (by simpa [M.Good] using hg) hx
+      exact (unionOf_sound (leafSpec_named S names) hl h).1
+theorem only_namedList (S : LeafSpec ev G) (hc : ∀ l, G l → Canon l) (names : List String)
     (ms xs : List M) (hg : M.GoodAll G ms) (h : M.onlyList names ms = .ok xs) :
     M.GoodAll (fun l => G l ∧ Named names l) xs := by
   cases ms with
@@ -418,25 +249,25 @@ theorem only_namedList (HR : ReparseNames) (S : LeafSpec ev G) (hc : ∀ l, G l 
       · cases h
       · rename_i ys hys
         simp [pure, Except.pure] at h; subst h
-        exact ⟨only_named HR S hc names m x hg.1 hx, only_namedList HR S hc names rest ys hg.2 hys⟩
+        exact ⟨only_named S hc names m x hg.1 hx, only_namedList S hc names rest ys hg.2 hys⟩
 end
 
 /-- **`only` mentions only the requested variables** -/
-theorem only_mentions_thm (HR : ReparseNames) (S : LeafSpec ev G) (hc : ∀ l, G l → Canon l) (names : List String)
+theorem only_mentions_thm (S : LeafSpec ev G) (hc : ∀ l, G l → Canon l) (names : List String)
     (m r : M) (hg : M.Good G m) (h : M.only names m = .ok r) : ∀ n ∈ M.vars r, n ∈ names :=
-  good_vars names r (only_named HR S hc names m r hg h)
+  good_vars names r (only_named S hc names m r hg h)
 
 /-- the simplifier's entry points mention no variable their operands do not mention -/
-theorem of_vars (HR : ReparseNames) (S : LeafSpec ev G) (hc : ∀ l, G l → Canon l) (fuel : Nat) (stk : Stack)
+theorem of_vars (S : LeafSpec ev G) (hc : ∀ l, G l → Canon l) (fuel : Nat) (stk : Stack)
     (ms : List M) (r : M) (hg : M.GoodAll G ms) :
     (multiOf fuel stk ms = .ok r → ∀ n ∈ M.vars r, n ∈ M.varsList ms) ∧
     (unionOf fuel stk ms = .ok r → ∀ n ∈ M.vars r, n ∈ M.varsList ms) := by
   have hn := named_of_varsList hc (M.varsList ms) ms hg (fun n hn => hn)
-  exact ⟨fun h => good_vars _ r (multiOf_sound (leafSpec_named HR S _) hn h).1,
-    fun h => good_vars _ r (unionOf_sound (leafSpec_named HR S _) hn h).1⟩
+  exact ⟨fun h => good_vars _ r (multiOf_sound (leafSpec_named S _) hn h).1,
+    fun h => good_vars _ r (unionOf_sound (leafSpec_named S _) hn h).1⟩
 
-theorem dnf_vars (HR : ReparseNames) (S : LeafSpec ev G) (hc : ∀ l, G l → Canon l) (fuel : Nat) (stk : Stack)
+theorem dnf_vars (S : LeafSpec ev G) (hc : ∀ l, G l → Canon l) (fuel : Nat) (stk : Stack)
     (m d : M) (hg : M.Good G m) (h : dnf fuel stk m = .ok d) : ∀ n ∈ M.vars d, n ∈ M.vars m :=
-  good_vars _ d (dnf_sound (leafSpec_named HR S _) (named_of_vars hc (M.vars m) m hg (fun n hn => hn)) h).1
+  good_vars _ d (dnf_sound (leafSpec_named S _) (named_of_vars hc (M.vars m) m hg (fun n hn => hn)) h).1
 
 end Poetry.Marker
